@@ -2,6 +2,7 @@
 from ..core import rng_for, rand_digits, M64, ndig
 from ..arith import cmd_bb
 
+THOROUGH_SEEDS = 2   # the thorough tier repeats its staged workload over this many derived seeds
 RULE = ('structured sweep exhaustive over (len a, len b) in digits x pair families x carry/borrow-chain '
         '(start,end) placements, each pair run through every big-by-big form of + and - (ref/val, '
         'assign, checked) for BigUint and the four sign combinations of BigInt, plus seeded random '
